@@ -102,6 +102,22 @@ static void run(const Spec & sp, uint64_t seed, long n_iid, int n_grid, bool hos
       rec_simple(memory, lab + "|spectrum-table-capacity",
                  fmt("after initialisation e0 = %.6f MeV: the sampler indexes spthe1/spthe2 up to element %ld, the arrays hold %u", bp.e0, (long)(bp.e0 * 1000.), (unsigned)bxdecay0::bbpars::SPSIZE));
   }
+  // the parameters fixed by the initialisation are inputs of every shot, never outputs: their text dump must read the same after the run
+  // (the keV-binned tables sit right behind them in the same object: a write before or past the tables lands here unseen by any sanitizer)
+  // (helpbb::e1 and the denrange members are working data of the samplers and integrands: left out)
+  auto fixed_pars = [&]() {
+    std::ostringstream o;
+    gen.get_bb_params().dump(o, "");
+    std::istringstream in(o.str());
+    std::string ln, out;
+    while (std::getline(in, ln)) {
+      if (ln.find("-- e1 ") != std::string::npos || ln.find("-- dens ") != std::string::npos || ln.find("-- denf ") != std::string::npos || ln.find("-- mode ") != std::string::npos) continue;
+      out += ln + "\n";
+    }
+    return out;
+  };
+  std::string pars_after_init;
+  if (sp.kind != 'B') pars_after_init = fixed_pars();
   uint64_t last_sig = 0;
   auto one = [&](const std::string & steer) -> size_t {
     last_sig = 0;
@@ -230,6 +246,17 @@ static void run(const Spec & sp, uint64_t seed, long n_iid, int n_grid, bool hos
     double toall_after = gen.get_to_all_events();
     if (!(toall_after == toall) && !(std::isnan(toall_after) && std::isnan(toall)))
       rec_simple(budget, lab + "|toallevents-changes", fmt("get_to_all_events() was %.12g after initialize() and is %.12g after %ld shots", toall, toall_after, st.events));
+  }
+  if (sp.kind != 'B') {
+    const std::string now = fixed_pars();
+    if (now != pars_after_init) {
+      // which lines differ
+      std::istringstream a(pars_after_init), b(now);
+      std::string la, lb, diff;
+      while (std::getline(a, la) && std::getline(b, lb))
+        if (la != lb && diff.size() < 300) diff += "[" + la + "] -> [" + lb + "] ";
+      rec_simple(memory, lab + "|initialised-parameters-changed", "the double-beta parameters set by initialize() read differently after the shots: " + diff);
+    }
   }
   // transition-parameter monitor: what the interposed nucltransK* entry points saw while this configuration ran
   for (auto & kv : verif::param_watch().bad) {
